@@ -478,6 +478,56 @@ func c01R2(c *Ctx) {
 		})
 		c.Check(max <= 1, FuncName(fn), p.Pos(fn.Pos()), "double-advance", "at most one advance on any path", fmt.Sprintf("a path through %s advances the expected inbound number %d times", FuncName(fn), max))
 	}
+	// (d) every increment is dominated by evidence that the message's number equals the
+	// expected one: a fully gated verification, or both comparisons, returned nil. Tabulated
+	// exceptions: the reject processor's ordinary-reject arm (FIX: reject and consume the number)
+	// and the Logon-refusal shutdown (flag-controlled).
+	r := getRoles(p)
+	for _, fn := range p.FuncsIn(modPath) {
+		for _, cl := range r.storeCalls(fn, "IncrNextTargetMsgSeqNum") {
+			name := FuncName(fn)
+			hasAssert := false
+			ForEachInstr(fn, func(in ssa.Instruction) {
+				if ta, ok := in.(*ssa.TypeAssert); ok && typeName(ta.AssertedType) == "targetTooLow" {
+					hasAssert = true
+				}
+			})
+			d := p.ReachCond(cl.Block())
+			if hasAssert {
+				c.OK(name, p.InstrPos(cl), "reject processor: reject-and-consume arm (tabulated)")
+				continue
+			}
+			if d.Implies(func(a *Atom) bool { return a.Rel == "" && a.Val && a.B.Kind == "param" }) {
+				c.OK(name, p.InstrPos(cl), "flag-controlled consume after a refused Logon (tabulated)")
+				continue
+			}
+			gatedNil := func(low, high bool) func(*Atom) bool {
+				return func(a *Atom) bool {
+					if a.Rel != "==" || !a.R.IsNil() || a.L.Kind != "call" || a.L.Callee == nil {
+						return false
+					}
+					cal := a.L.Callee
+					if low && cal == g.tooLow || high && cal == g.tooHigh {
+						return true
+					}
+					if cal == g.gate && a.L.Call != nil {
+						lo, loC := p.constBoolArg(a.L.Call.Args[g.pLow], 0)
+						hi, hiC := p.constBoolArg(a.L.Call.Args[g.pHigh], 0)
+						return (!low || loC && lo) && (!high || hiC && hi)
+					}
+					if isThinGateWrapper(p, g, cal) {
+						lo, hi, _ := wrapperConsts(p, g, cal)
+						return (!low || lo) && (!high || hi)
+					}
+					return false
+				}
+			}
+			okLow := d.Implies(gatedNil(true, false))
+			okHigh := d.Implies(gatedNil(false, true))
+			c.Check(okLow && okHigh, name, p.InstrPos(cl), "advance-needs-both-comparisons", "increment only after both sequence comparisons passed on this message",
+				fmt.Sprintf("the expected inbound number is incremented although the message's MsgSeqNum is not known to equal it (too-low comparison passed: %v, too-high comparison passed: %v): a message numbered above the expected one would consume a number that never arrived, so the session's own later ResendRequest starts too late and a message is silently lost", okLow, okHigh))
+		}
+	}
 	// (c) wrapper states advance only through the in-session handler
 	for _, tn := range []string{"resendState", "logoutState", "pendingTimeout"} {
 		n := p.Named(modPath, tn)
